@@ -949,7 +949,9 @@ class GeoBox(GeoBoxBase):
         # false positive for -pady, it's never None by the time it runs
         # pylint: disable=invalid-unary-operand-type
 
-        pady = padx if pady is None else pady
+        # plain ints: ``-padx`` wraps around for unsigned numpy scalars
+        padx = int(padx)
+        pady = padx if pady is None else int(pady)
 
         ny, nx = self._shape.yx
         A = self._affine * Affine.translation(-padx, -pady)
